@@ -38,16 +38,17 @@ SUPPORTED RUST SUBSET AND ITS MEANING
   macros      `macro_rules!` (single arm; file level or local to a function body) become Lean FUNCTIONS `<macro>_src`:
               parameters bound to places/expressions are value parameters (the ones the body assigns are returned, in
               parameter order), parameters bound to LITERALS or to NAMES OF FUNCTIONS are compile-time: the function is
-              specialised (`add_rotate_xor_16_src`, `G_rotate32_epi64_rotate24_epi64_src`); variables of the enclosing function
-              that the body uses are extra (leading) parameters, those it assigns are returned first.  Expression arguments
-              are evaluated at the call site (they must not mention a variable the macro assigns).  Macros in expression
-              position (`load0!()`, `blend!(a, b)`) are functions returning the value.  Local macros are prefixed by the
+              specialised (`add_rotate_xor_16_src`, `G_rotate32_epi64_rotate24_epi64_src`), unused parameters are dropped;
+              variables of the enclosing function that the body uses are extra parameters (after the macro's own, in the
+              declaration order of the enclosing function), those it assigns are returned after the assigned parameters,
+              a value (macros in expression position: `load0!()`, `blend!(a, b)`) last.  Expression arguments are evaluated
+              at the call site (they must not mention a variable the macro assigns).  Local macros are prefixed by the
               function name.  `assert!`, `debug_assert!`, `unreachable!`, `panic!` are checks.
   control     `if c {..} else {..}` (statement or value; the variables assigned in a branch are joined through a tuple),
               `match <usize expr> { lit => e, …, _ => e }` as an `if` chain; `for _ in 0..n { body }` = structural recursion
-              on the count (`<fn>_loop<k>_src`); `while c { body }` = recursion on FUEL named by the spec
-              (`fuel=["<rust expr>", …]` per loop); loop bodies may not `return`/`break`/`continue`; early `return e;` only as the
-              last statement of an `if` branch that ends the function (`if c { return f(..); }` : the continuation goes to `else`).
+              on the count (`<fn>_loop<k>_src` over the tuple of assigned variables, read-only ones as parameters);
+              `while c { body }` = recursion on FUEL named by the spec (`fuel=["<rust expr>", …]`, one per loop in source
+              order, macro expansions included); `return`/`break`/`continue` are refused.
   slices      `b[lo..hi]`, `b[lo..]` = `Glue.slice` (PANIC), `.len()`, `.try_into().unwrap()` to `[u8; 4]` (length check),
               `u32::from_le_bytes` = `leU32`; `[c; n]` = `Glue.fill`; `a.get_unchecked(i)` (UB outside), `*x`, `&x`, `&mut x`.
   words       `wrapping_add` = `+`, `overflowing_add` = `(a + b, decide (2^w ≤ a.toNat + b.toNat))`, `^ & | !`, `<< >>` by
@@ -595,10 +596,16 @@ class Ctx:
             raise TranslateError(f"pointer variable {place} captured by a macro / loop body")
         if pv.ty == "fnname" or (isinstance(pv.ty, tuple) and pv.ty[0] == "fnname"):
             return pv
-        v = self.add_param(place, pv.ty)
+        v = V(self.fresh(place), pv.ty)
         self.captures[place] = v
         self.env[place] = v
         return v
+
+    def sorted_captures(self):
+        """captured variables in the declaration order of the enclosing function (generics first)"""
+        order = {pl: i for i, pl in enumerate(self.root.env)}
+        keys = list(self.captures)
+        return sorted(keys, key=lambda pl: (0 if pl.startswith("#generic#") else 1, order.get(pl, 1 << 30), keys.index(pl)))
 
     def lookup(self, place):
         v = self.lookup_opt(place)
@@ -849,7 +856,7 @@ class Ex(Ctx):
         if key in self.env:
             return self.env[key]
         pv = self.parent.generic(name) if isinstance(self.parent, Ex) else v
-        nv = self.add_param(name, pv.ty)
+        nv = V(self.fresh(name), pv.ty)
         self.captures[key] = nv
         self.env[key] = nv
         return nv
@@ -1555,7 +1562,8 @@ class Ex(Ctx):
             if pl in self.written:
                 v = self.lookup(pl)
                 outs.append(("param", pnames.index(pl), v.ty)); finals.append(v.t)
-        for pl in self.captures:
+        caps_sorted = self.sorted_captures()
+        for pl in caps_sorted:
             if pl in self.written:
                 v = self.whole(pl) if not pl.startswith("#") else self.lookup(pl)
                 outs.append(("capture", pl, v.ty)); finals.append(v.t)
@@ -1569,13 +1577,14 @@ class Ex(Ctx):
         if not finals:
             res = "()"
         fall = self.any_fallible
-        sig = " ".join(f"({n} : {t})" for n, t in self.params)
+        allp = list(self.params) + [(self.captures[pl].t, lty(self.captures[pl].ty, self.prog)) for pl in caps_sorted]
+        sig = " ".join(f"({n} : {t})" for n, t in allp)
         body = "\n".join(self.lines + [f"{self.ind}{'.ok ' + par(res) if fall else res}"])
         rtxt = f"Except String {par_ty(rty)}" if fall else rty
         names = ", ".join([("$" + pnames[o[1]][4:]) if o[0] == "param" else o[1] for o in outs] + (["value"] if ret != "unit" else []))
         self.root.aux.append(f"/-- macro {what} of `{self.k.fn}` — GENERATED from {self.k.file}; result: ({names}) -/\n"
                              f"def {self.name} {sig} : {rtxt} :=\n{body}\n")
-        caps = [(pl, v.ty) for pl, v in self.captures.items()]
+        caps = [(pl, self.captures[pl].ty) for pl in caps_sorted]
         return MacroInst(self.name, None, caps, outs, ret, fall)
 
     # ---- if / match joins
@@ -1658,7 +1667,7 @@ class Ex(Ctx):
         return comps[-1] if has_val else None
 
     # ---- statements
-    def block(self, stmts, want=None):
+    def block(self, stmts, want=None, scoped=True):
         scope = {}
         stack = self.__dict__.setdefault("scopes", [])
         stack.append(scope)
@@ -1668,6 +1677,8 @@ class Ex(Ctx):
                 break
             val = self.stmt(s, want if i == len(stmts) - 1 else None)
         stack.pop()
+        if not scoped:
+            return val
         for name, (old, was_local) in scope.items():
             for key in [k2 for k2 in self.env if k2 == name or k2.startswith(name + ".")]:
                 del self.env[key]
@@ -1861,7 +1872,7 @@ class Ex(Ctx):
     def emit_loop(self, sub, count_text, cv):
         order = {pl: i for i, pl in enumerate(self.env)}
         state = sorted([pl for pl in sub.captures if pl in sub.written], key=lambda pl: order.get(pl, 1 << 30))
-        ro = [pl for pl in sub.captures if pl not in sub.written]
+        ro = [pl for pl in sub.sorted_captures() if pl not in sub.written]
         if not state:
             raise TranslateError("loop without effect")
         st_params = [sub.captures[pl] for pl in state]
@@ -2107,7 +2118,7 @@ def translate(k):
     ret_rust = None
     if ret is not None and isinstance(ret, tuple) and ret[0] == "named":
         ret_rust = k.self_ty if ret[1] == "Self" else ret[1]
-    val = ex.block(parse_block(body), rty if rty != "unit" else None)
+    val = ex.block(parse_block(body), rty if rty != "unit" else None, scoped=False)
     if root.while_no != len(k.fuel):
         raise TranslateError(f"{k.fn}: the spec names {len(k.fuel)} fuel expression(s), the body has {root.while_no} `while` loop(s)")
     finals = []
